@@ -158,7 +158,8 @@ var c15Fails = []c15Fail{
 }
 
 // failing tags that span lines: the property's "line on which the tag begins" is checked in families of
-// their own (wrong-line-multiline-tag:<variant>)
+// their own (wrong-line-multiline-tag:<variant>). Tags of SEVERAL statements with the failing one anywhere among them
+// are generated in oracle_c15_script.go.
 type c15Multi struct {
 	variant string
 	tag     string
@@ -544,12 +545,24 @@ type c15Case struct {
 	swal    []int  // line ranges of earlier user functions whose body fails (the callers swallow the error)
 	tmpl    string
 	control string // same template with a benign tag in place of the failing one
+	// script-style failing tags (multi == "script-tag", see oracle_c15_script.go)
+	stmt  int    // line on which the failing statement begins (0: not a script-style tag)
+	end   int    // last line of the failing tag
+	blank string // same template with the text of the in-tag comments in front of the failing statement removed ("": none)
+	shape string // generator's description of the script (distribution only, not part of the case text)
 }
 
 func (c c15Case) text() string {
-	return fmt.Sprintf("kind=%s runtime=%v unterm=%v multi=%s where=%s line=%d blocks=%s swallowed=%s control=%s tmpl=%s",
-		c.kind, c.runtime, c.unterm, c15dash(c.multi), c.where, c.line, c15dash(c15Ints(c.blocks)), c15dash(c15Ints(c.swal)),
-		strconv.Quote(c.control), strconv.Quote(c.tmpl))
+	stmt, blank := "", ""
+	if c.stmt > 0 {
+		stmt = fmt.Sprintf(" stmt=%d-%d", c.stmt, c.end)
+	}
+	if c.blank != "" {
+		blank = " nocomment=" + strconv.Quote(c.blank)
+	}
+	return fmt.Sprintf("kind=%s runtime=%v unterm=%v multi=%s where=%s line=%d%s blocks=%s swallowed=%s control=%s tmpl=%s%s",
+		c.kind, c.runtime, c.unterm, c15dash(c.multi), c.where, c.line, stmt, c15dash(c15Ints(c.blocks)), c15dash(c15Ints(c.swal)),
+		strconv.Quote(c.control), strconv.Quote(c.tmpl), blank)
 }
 
 func c15Ints(xs []int) string {
@@ -578,7 +591,7 @@ func c15dash(s string) string {
 	return s
 }
 
-var c15CaseRe = regexp.MustCompile(`^kind=(\S+) runtime=(\S+) unterm=(\S+) multi=(\S+) where=(\S+) line=(\d+) blocks=(\S+)(?: swallowed=(\S+))? control=("(?:[^"\\]|\\.)*") tmpl=("(?:[^"\\]|\\.)*")$`)
+var c15CaseRe = regexp.MustCompile(`^kind=(\S+) runtime=(\S+) unterm=(\S+) multi=(\S+) where=(\S+) line=(\d+)(?: stmt=(\d+)-(\d+))? blocks=(\S+)(?: swallowed=(\S+))? control=("(?:[^"\\]|\\.)*") tmpl=("(?:[^"\\]|\\.)*")(?: nocomment=("(?:[^"\\]|\\.)*"))?$`)
 
 func c15Parse(s string) (c15Case, error) {
 	m := c15CaseRe.FindStringSubmatch(s)
@@ -595,13 +608,20 @@ func c15Parse(s string) (c15Case, error) {
 		c.multi = m[4]
 	}
 	c.line, _ = strconv.Atoi(m[6])
-	c.blocks = c15ParseInts(m[7])
-	c.swal = c15ParseInts(m[8])
+	c.stmt, _ = strconv.Atoi(m[7])
+	c.end, _ = strconv.Atoi(m[8])
+	c.blocks = c15ParseInts(m[9])
+	c.swal = c15ParseInts(m[10])
 	var err error
-	if c.control, err = strconv.Unquote(m[9]); err != nil {
+	if c.control, err = strconv.Unquote(m[11]); err != nil {
 		return c, err
 	}
-	c.tmpl, err = strconv.Unquote(m[10])
+	if c.tmpl, err = strconv.Unquote(m[12]); err != nil {
+		return c, err
+	}
+	if m[13] != "" {
+		c.blank, err = strconv.Unquote(m[13])
+	}
 	return c, err
 }
 
@@ -609,10 +629,16 @@ func c15Gen(r *Rng) c15Case {
 	b := &c15B{r: r}
 	var c c15Case
 	var tag string
+	var script *c15Fail
 	noLoop, prelude := false, ""
-	if r.Chance(10) {
+	if x := r.Intn(100); x < 10 {
 		m := Pick(r, c15Multis)
 		c.kind, c.multi, c.runtime, tag = "multiline", m.variant, m.runtime, m.tag
+	} else if x < 24 {
+		// a script-style tag: several statements on several lines, the failing one anywhere among them
+		f := Pick(r, c15ScriptFails)
+		script = &f
+		c.kind, c.runtime, c.unterm, c.multi, noLoop, prelude = f.kind, f.runtime, f.unterm, "script-tag", f.noLoop, f.prelude()
 	} else {
 		f := Pick(r, c15Fails)
 		c.kind, c.runtime, c.unterm, tag, noLoop, prelude = f.kind, f.runtime, f.unterm, f.tag, f.noLoop, f.prelude()
@@ -623,8 +649,21 @@ func c15Gen(r *Rng) c15Case {
 	raw := b.sb.String()
 	i := strings.Index(raw, c15Mark)
 	c.line = 1 + strings.Count(raw[:i], "\n")
-	c.tmpl = strings.Replace(raw, c15Mark, tag, 1)
-	c.control = strings.Replace(raw, c15Mark, "<%= n %>", 1)
+	if script != nil {
+		pre, preBlank, post, shape := c15GenScript(r, b, *script)
+		tag = pre + script.tag + post
+		c.stmt = c.line + strings.Count(pre, "\n")
+		c.end = c.line + strings.Count(tag, "\n")
+		c.shape = shape
+		c.tmpl = strings.Replace(raw, c15Mark, tag, 1)
+		c.control = strings.Replace(raw, c15Mark, pre+"n"+post, 1)
+		if preBlank != pre {
+			c.blank = strings.Replace(raw, c15Mark, preBlank+script.tag+post, 1)
+		}
+	} else {
+		c.tmpl = strings.Replace(raw, c15Mark, tag, 1)
+		c.control = strings.Replace(raw, c15Mark, "<%= n %>", 1)
+	}
 	c.blocks = b.blocks
 	c.swal = b.swal
 	c.where = "top"
@@ -680,6 +719,13 @@ func c15Check(rep *Report, c c15Case) {
 	rep.Tag("kind:" + fam)
 	rep.Tag("where-depth:" + strconv.Itoa(strings.Count(c.where, "/")+c15b2i(c.where != "top")))
 	rep.Tag("phase:" + map[bool]string{true: "render", false: "parse"}[c.runtime])
+	if c.stmt > 0 {
+		rep.Tag("script-fault:" + c.kind)
+		rep.Tag(fmt.Sprintf("script-stmt-line-offset:%d", c15min(c.stmt-c.line, 6)))
+		if c.shape != "" {
+			rep.Tag("script-shape:" + c.shape)
+		}
+	}
 	switch o.Kind() {
 	case "PANIC":
 		rep.Fail(Failure{Case: ct, Kind: "panic", Site: o.Site, What: "Render panicked: " + o.Panic})
@@ -713,6 +759,8 @@ func c15Check(rep *Report, c c15Case) {
 			case c.runtime && c15InBlocks(c.swal, n) && n < c.line:
 				// the line of a statement inside an EARLIER tag whose failure the language swallowed
 				site = "runtime-error-line-of-earlier-swallowed-stmt"
+			case c.stmt > 0:
+				site = c15ScriptSite(c, n)
 			case c.multi != "":
 				site = "wrong-line-multiline-tag:" + c.multi + map[bool]string{true: ":render", false: ":parse"}[c.runtime]
 			case c.kind == "fail-after-user-fn-call" && n <= 3:
@@ -730,8 +778,32 @@ func c15Check(rep *Report, c c15Case) {
 				}
 				site = "wrong-line:" + fam + ":" + d
 			}
-			rep.Fail(Failure{Case: ct, Kind: "wrong-error", Site: site,
-				What: fmt.Sprintf("failing tag begins on line %d (%s); error says %q", c.line, c.where, msg)})
+			what := fmt.Sprintf("failing tag begins on line %d (%s); error says %q", c.line, c.where, msg)
+			if c.stmt > 0 {
+				what = fmt.Sprintf("failing tag spans lines %d-%d (%s), the failing statement begins on line %d; error says %q", c.line, c.end, c.where, c.stmt, msg)
+			}
+			rep.Fail(Failure{Case: ct, Kind: "wrong-error", Site: site, What: what})
+		}
+	}
+	// comments count as lines and as nothing else: without the text of the in-tag comments the error is the same
+	if c.blank != "" {
+		ph := map[bool]string{true: "render", false: "parse"}[c.runtime]
+		bo := c15Render(c.blank)
+		rep.Evaluations++
+		rep.Tag("comment-text-removed:" + ph)
+		switch bo.Kind() {
+		case "PANIC":
+			rep.Fail(Failure{Case: ct, Kind: "panic", Site: bo.Site, What: "without the text of the in-tag comments Render panicked: " + bo.Panic})
+		case "HANG":
+			rep.Fail(Failure{Case: ct, Kind: "hang", Site: "c15-render-nocomment", What: "without the text of the in-tag comments Render did not return"})
+		case "OK":
+			rep.Fail(Failure{Case: ct, Kind: "missing-error", Site: "in-tag-comment-text-changes-error:" + ph,
+				What: fmt.Sprintf("with comments: %q; same template with the text of the in-tag comments removed (line ends kept): no error", msg)})
+		default:
+			if bmsg := bo.Err.Error(); bmsg != msg {
+				rep.Fail(Failure{Case: ct, Kind: "wrong-error", Site: "in-tag-comment-text-changes-error:" + ph,
+					What: fmt.Sprintf("with comments: %q; same template with the text of the in-tag comments removed (line ends kept): %q", msg, bmsg)})
+			}
 		}
 	}
 	// shifting
@@ -770,6 +842,13 @@ func c15Check(rep *Report, c c15Case) {
 	}
 }
 
+func c15min(a, b int) int {
+	if a < b {
+		return a
+	}
+	return b
+}
+
 func c15b2i(b bool) int {
 	if b {
 		return 1
@@ -799,12 +878,14 @@ func c15TagEndsLine(c c15Case) bool {
 func init() {
 	oracles["C15"] = func(cfg Config) []*Report {
 		rep := NewReport("C15", "C15", cfg)
-		rep.Rule = "multi-line templates with exactly one failing tag (77 single-line faults in 16 kinds: unknown identifier, failing helper, type error, index out of range, missing paren/brace/bracket, unexpected token, invalid if condition, invalid nested index, unexpected tag end, bad literal, break/continue outside a loop, a fault after a successful user-function call in the same tag, a fault after a user-function call in the same tag whose body failed with an unknown identifier that the language swallowed (== nil, ||, !), input ending in an unterminated string; 10% multi-line failing tags in families of their own) at a generator-known line, at top level or 1-3 levels inside if/else/else-if/for/fn/block-helper bodies (also if/else/else-if whose CONDITION swallows an unknown identifier, bare or raised inside a user function body), after a random mix of text, escaped tags, valid tags, multi-line \" and ` strings, # comments, <%# %> tags, complete earlier blocks (also loops / functions left early by break, continue, return) and multi-step histories (an earlier tag renders fine although a statement nested in a user function it calls failed with an unknown identifier that ||, &&, ==, !=, ! or an if / else-if condition swallowed; 6 shapes of failing function x 11 swallowing tags; every fault x every swallowing tag is also run once at top level); every case is rendered with 0,1,2,7 leading newlines; the same template with a benign tag in place of the failing one must render (else the case is skipped); non-trivial = all; distinct by template text; 100% reach the parser message / compile() error path"
+		rep.Rule = "multi-line templates with exactly one failing tag (77 single-line faults in 16 kinds: unknown identifier, failing helper, type error, index out of range, missing paren/brace/bracket, unexpected token, invalid if condition, invalid nested index, unexpected tag end, bad literal, break/continue outside a loop, a fault after a successful user-function call in the same tag, a fault after a user-function call in the same tag whose body failed with an unknown identifier that the language swallowed (== nil, ||, !), input ending in an unterminated string; 10% multi-line failing tags in families of their own; 14% script-style failing tags: one <% %> / <%= %> tag of several statements on several lines with the failing statement (any of the 66 one-statement faults) first, in the middle or last, directly in the tag or in an if / else / for / fn body written in the same tag, after any mix IN THE SAME TAG of healthy statements, # comments on their own line or trailing a statement, blank lines, \r\n line ends, multi-line strings and statements that span lines; every one-statement fault is also run once through 10 fixed script shapes) at a generator-known line, at top level or 1-3 levels inside if/else/else-if/for/fn/block-helper bodies (also if/else/else-if whose CONDITION swallows an unknown identifier, bare or raised inside a user function body), after a random mix of text, escaped tags, valid tags, multi-line \" and ` strings, # comments, <%# %> tags, complete earlier blocks (also loops / functions left early by break, continue, return) and multi-step histories (an earlier tag renders fine although a statement nested in a user function it calls failed with an unknown identifier that ||, &&, ==, !=, ! or an if / else-if condition swallowed; 6 shapes of failing function x 11 swallowing tags; every fault x every swallowing tag is also run once at top level); every case is rendered with 0,1,2,7 leading newlines; the same template with a benign tag in place of the failing one must render (else the case is skipped); non-trivial = all; distinct by template text; 100% reach the parser message / compile() error path"
 		rep.Notes = append(rep.Notes,
 			"not checked: faults that plush reports no error for (missing closing brace at EOF, unterminated string with nothing pending, `1 2`): C15 constrains returned errors only; they are counted under no-error:*",
 			"multi-message parser errors: only the first message's line is compared with the known line; follow-up messages must shift by k like the first",
 			"multi-line failing tags are generated in 10% of the cases and reported under wrong-line-multiline-tag:<variant> (the statement names the line on which the TAG begins)",
 			"multi-step histories: the earlier tags are valid by the oracle's own control (the template with a benign tag in place of the failing one must render without error); a wrong line that points into an earlier failing-function body is reported as runtime-error-line-of-earlier-swallowed-stmt, one that points into the body of a function called (and its error swallowed) by the failing tag itself as runtime-error-line-of-swallowed-callee-stmt",
+			"script-style failing tags (multi=script-tag; stmt=S-E in the case text: line of the failing statement, last line of the tag): the error must name the line of the tag; the line S of the failing statement itself (syntax errors: a line in S..E, the token at which the parser gave up) is plush's known reading and is reported under the existing ids wrong-line-multiline-tag:newline-after-opener / newline-mid-statement (same root cause: the line of the statement / token, not of the tag); any other line is reported as wrong-line-script-tag:{before-tag, inside-tag-before-failing-statement, inside-tag-after-failing-statement, after-tag}. A fault that leaves a brace open is generated directly in the tag only (inside a body of the same tag it would take the body's closing brace and the parser's error belongs to no single statement)",
+			"comments are counted as lines and as nothing else: when the failing tag holds # comments in front of the failing statement, the same template with the text of those comments removed (line ends kept; nocomment= in the case text) must return the identical error (in-tag-comment-text-changes-error); a tag closer inside a # comment is not generated",
 			"an error inside an else-if CONDITION or a partial is not generated (which tag 'contains the failing statement' is open there)")
 		if cfg.Arg != "" {
 			c, err := c15Parse(cfg.Arg)
@@ -827,6 +908,18 @@ func init() {
 		for _, m := range c15Multis {
 			c15Check(rep, c15Case{kind: "multiline", multi: m.variant, runtime: m.runtime, where: "top",
 				line: 2, tmpl: "a\n" + m.tag + "\nz\n", control: "a\n<%= n %>\nz\n"})
+		}
+		// every one-statement fault in every fixed script shape (a tag of several lines, the failing statement after
+		// comments / healthy statements / blank lines / multi-line strings of the same tag), tag on line 2
+		for _, f := range c15ScriptFails {
+			for _, sh := range c15ScriptShapes {
+				if sh.body && c15OpensBrace(f) {
+					continue
+				}
+				c := c15ScriptCase(f, "top", "a\n", sh.pre, sh.preBlank, sh.post, "\nz\n")
+				c.shape = "fixed:" + sh.name
+				c15Check(rep, c)
+			}
 		}
 		// every fault at top level after every kind of tag that swallows the error of a nested statement
 		// (a multi-step history: the earlier tag renders fine, a statement inside it failed)
